@@ -657,7 +657,11 @@ class Interp:
             if isinstance(v, VAdt) and v.fields is not None:
                 fs = list(v.fields)
                 fs[i] = self.update_value(st, fs[i], projs[1:], val)
-                return VAdt(v.path, v.variant, tuple(fs), None, v.ty)
+                nk = None
+                if self.rootset and self.inv_targets is not None and \
+                        any(f.body["path"] in self.rootset for f in st.frames[1:]):
+                    nk = ("rootborn",)
+                return VAdt(v.path, v.variant, tuple(fs), nk, v.ty)
             if isinstance(v, VTuple):
                 fs = list(v.fields)
                 fs[i] = self.update_value(st, fs[i], projs[1:], val)
@@ -1043,7 +1047,13 @@ class Interp:
                 return VArray(tuple(ops), len(ops), None, self.rt(kind["of"]))
             if a == "adt":
                 t = dest_ty if isinstance(dest_ty, dict) and dest_ty.get("k") == "adt" else None
-                v = VAdt(kind["path"], kind["variant"], tuple(ops), None, t)
+                key = None
+                if self.inv_targets is not None and self.rootset and kind["path"] in self.inv_targets and \
+                        any(f.body["path"] in self.rootset for f in st.frames[1:]):
+                    # constructed inside an inlined function that is analysed as a root itself: that analysis
+                    # records the construction for all admissible inputs
+                    key = ("rootborn",)
+                v = VAdt(kind["path"], kind["variant"], tuple(ops), key, t)
                 return v
             if a == "closure":
                 return VClosure(kind["path"], ops)
@@ -1539,11 +1549,17 @@ class Interp:
             nx = (-(f[1])).single_atom()
             if nx is not None and ATOM_LO.get(nx) == 0 and ATOM_HI.get(nx) == 1:
                 return Lin.const(1) - Lin.atom(nx)
-        c = reg_atom(("b2i", fresh_id()), 0, 1)
+        if f[0] in ("ge", "eq", "ne"):
+            # the same condition always maps to the same 0/1 atom
+            c = reg_atom(("b2if", f[0], f[1].key()), 0, 1)
+        else:
+            c = reg_atom(("b2i", fresh_id()), 0, 1)
         pos = conj_of(f)
         neg = conj_of(f_not(f))
         if pos is not None and neg is not None:
-            st.disj.append([[Lin.atom(c) - 1] + list(pos), [Lin.atom(c).scale(-1)] + list(neg)])
+            d = [[Lin.atom(c) - 1] + list(pos), [Lin.atom(c).scale(-1)] + list(neg)]
+            if not any(x == d for x in st.disj):
+                st.disj.append(d)
         return Lin.atom(c)
 
     def try_if_convert(self, st, fr, t, v):
@@ -1843,14 +1859,33 @@ class Interp:
         self.sink.events.append(("unmodelled", path, fr.body["path"], sp))
         return self.havoc_call(st, args, dty, ret_k, t)
 
+    def is_small_leaf(self, body):
+        r = body.get("_leaf")
+        if r is None:
+            r = len(body["blocks"]) <= 8 and not cfg_info(body)["loops"]
+            if r:
+                for blk in body["blocks"]:
+                    t = blk["term"]
+                    if t["t"] == "call":
+                        c = t["callee"]
+                        if c.get("res_local") or (c.get("res") is None and c.get("local")) or "indirect" in c:
+                            r = False
+                            break
+            body["_leaf"] = r
+        return r
+
     def call_body(self, st, body, args, dty, ret_k, site, callee=None, force=False):
         depth = len(st.frames)
         path = body["path"]
+        if not force and depth > self.max_depth and self.is_small_leaf(body):
+            force = True
         recursive = any(f.body is body for f in st.frames)
         if (depth > self.max_depth and not force) or recursive or depth > self.max_depth + 3:
             if body.get("unsafe"):
                 self.oblige(st, "prec", "unsafe fn %s not inlined (depth)" % path, False, site, self.cur_sp)
-            self.opaque_calls.append((path, self.ctx(st), st.frames[-1].body["path"], site))
+            if not (self.rootset and any(f.body["path"] in self.rootset for f in st.frames[1:])):
+                # (a chain that passes through another root is covered by that root's own analysis)
+                self.opaque_calls.append((path, self.ctx(st), st.frames[-1].body["path"], site))
             return self.havoc_call(st, args, dty, ret_k, None, callee_body=body)
         if self.inv_targets is not None and st.frames and st.frames[-1].dirty:
             self.flush_dirty(st, st.frames[-1])
